@@ -3,9 +3,11 @@
 Observation point: `ModeWrapper(<stack containing KDMixWrapper>, mode)[i]` for the request forms "x class", "class x",
 "x", "class" (with "index" / "ctx.*" items mixed in) on *id-encoded* datasets:
 
-    x_j[pos] = (j + 1) * 4096 + 2048 * bit(j, pos) + position_code(pos)     (exact in float32, never 0, so zero padding is
-    class_j  = a class that (for the id layouts) names sample j              visible; bit = per-sample pseudo-random pattern,
-                                                                             so that x_p - x_i are not parallel for different p)
+    x_j[pos] = (j + 1) * 4096 + 2048 * bit(j, pos) + position_code(pos)
+    class_j  = a class that (for the id layouts) names sample j
+
+(integers < 2^19: exact in float32; never 0, so zero padding is visible; bit = fixed per-sample pseudo-random pattern, so
+that the differences x_p - x_i are not parallel for different partners p and the partner is identifiable from the data.)
 
 Because every sample carries its id and every element its position, the partner, the mix weight and the shape
 unification can be *decoded from the returned tensor* (least-squares weight per candidate partner, residual must vanish)
@@ -46,7 +48,7 @@ ASSUMPTIONS = [
     "float tolerances: data residual <= 4e-6*(|x_i|+|U(x_p)|)+1e-6 per element, label vs data-decoded weight <= 3e-4, label sum <= 1e-5",
     "p=1 clause: lambda ~ Beta(alpha, alpha) with alpha >= 1 and P(partner = self) <= 1/n (uniform over the dataset or over the "
     "others); draws of distinct (seed, index) pairs are independent; 'looks un-mixed' = label mass on the own class >= 1-1e-3 "
-    "(x-only form: decoded partner weight < 1e-3); null probability bounded by 1/64 + 2e-3; false-alarm bound 1e-12 per run",
+    "(x-only form: every (partner, weight) explanation of the data keeps < 1e-3 of the partner); null probability bounded by 1/64 + 2e-3; false-alarm bound 1e-12 per run",
     "cutmix_p > 0 is driven only as refusal class 'cutmix-not-implemented' (NotImplementedError raised by the wrapper itself); "
     "results returned in such configurations must be untouched / mixup results (or, should cutmix get implemented, an "
     "element-wise paste of the partner with the label weight equal to the retained fraction)",
